@@ -328,6 +328,15 @@ fn main() {
                 pats.push(format!("{{{},zz,{}}}>=1", x, y));
             }
         }
+        // a comparison operator to the left of a large group of bounds, and groups of operators
+        for n in [15usize, 16, 17, 24, 25, 40] {
+            let bounds: Vec<String> = (0..n).map(|i| format!("1.{}", i)).collect();
+            pats.push(format!("py-foo>={{{}}}", bounds.join(",")));
+            pats.push(format!("py-foo<{{{}}}", bounds.join(",")));
+            pats.push(format!("{{py-foo>=,py-xyz-foo>}}{{{}}}", bounds.join(",")));
+            let globs: Vec<String> = (0..n).map(|i| format!("o{}", i)).collect();
+            pats.push(format!("{{{},py-*,py-x[xy]z-foo-?}}", globs.join(",")));
+        }
         for g in [4usize, 6, 8, 10] {
             pats.push(format!("p{}-1", "{a,b}".repeat(g)));
             pats.push(format!("p{}-1", "{,a}".repeat(g)));
